@@ -134,6 +134,21 @@ fn main() {
         let gotu = usize::try_from_term(lit(lf, &int)).ok();
         if gotu.is_some() && gotu != wantu { fail(format!("usize::try_from_term({:?}^^xsd:integer) = {:?}, the lexical form denotes {:?}", lf, gotu, v)); }
     }
+    // xsd:boolean: the lexical space is {true, false, 1, 0}
+    let boolean = format!("{}boolean", xsd);
+    for (lf, v) in [("true", Some(true)), ("false", Some(false)), ("1", Some(true)), ("0", Some(false)), ("2", None), ("10", None), ("255", None), ("007", None), ("01", None), ("00", None), ("+1", None), ("+0", None), ("-0", None),
+                    ("True", None), ("TRUE", None), ("False", None), ("yes", None), ("", None), (" true", None), ("true ", None), ("t", None), ("1.0", None)] {
+        n += 1;
+        match (bool::try_from_term(lit(lf, &boolean)).ok(), v) {
+            (Some(got), Some(want)) if got == want => {}
+            (None, _) => {} // refusing a literal is allowed
+            (got, _) => fail(format!("bool::try_from_term({:?}^^xsd:boolean) = {:?}, the lexical form denotes {:?}", lf, got, v)),
+        }
+    }
+    for dt in [&int, &dbl] {
+        n += 1;
+        if let Ok(b) = bool::try_from_term(lit("true", dt)) { fail(format!("bool::try_from_term(\"true\"^^{}) succeeds with {}", dt, b)); }
+    }
     // short lexical forms
     let alpha = [b'0', b'1', b'9', b'+', b'-', b' ', b'a', b'.'];
     for a in alpha { for b in alpha { for len in 0..=2usize {
